@@ -69,4 +69,19 @@ ag += """
 var VerifWaitForConfigSnapshot func(deadline time.Time, opts WaitForConfigSnapshotOptions, cb WaitForConfigSnapshotCallback) (PendingOp, error)
 """
 p = os.path.join(outdir, "agent.go"); open(p, "w").write(ag); ov["Replace"][os.path.join(G, "agent.go")] = p
+# 3. KV operation hooks on Agent (used by the C20 wrapper scenarios)
+ops = open(os.path.join(G, "agent_ops.go")).read()
+for meth, args in [("Get", "opts, cb"), ("Delete", "opts, cb"), ("Set", "opts, cb"), ("LookupIn", "opts, cb"), ("MutateIn", "opts, cb")]:
+    ops = ops.replace("\treturn agent.crud.%s(%s)\n}" % (meth, args), "\tif Verif%s != nil {\n\t\treturn Verif%s(%s)\n\t}\n\treturn agent.crud.%s(%s)\n}" % (meth, meth, args, meth, args), 1)
+ops += """
+// hooks used only by /verif replays (injected by -overlay)
+var (
+	VerifGet      func(opts GetOptions, cb GetCallback) (PendingOp, error)
+	VerifDelete   func(opts DeleteOptions, cb DeleteCallback) (PendingOp, error)
+	VerifSet      func(opts SetOptions, cb StoreCallback) (PendingOp, error)
+	VerifLookupIn func(opts LookupInOptions, cb LookupInCallback) (PendingOp, error)
+	VerifMutateIn func(opts MutateInOptions, cb MutateInCallback) (PendingOp, error)
+)
+"""
+p = os.path.join(outdir, "agent_ops.go"); open(p, "w").write(ops); ov["Replace"][os.path.join(G, "agent_ops.go")] = p
 j = os.path.join(outdir, "overlay.json"); json.dump(ov, open(j, "w"), indent=1); print(j)
